@@ -247,6 +247,15 @@ class Expander:
                 inner = s.text[cur_s + 1:cur_e - 1]
             else:
                 inner = s.text[cur_s:cur_e]
+            if 'keep-match' in sections:
+                # rule E3d: the innermost `match` is kept with the chosen arm (pattern AND guard verbatim) and one wildcard arm
+                # whose body is the given stand-in call - whether a value reaches this arm or falls through stays an obligation
+                mk_, mo_, mc_, ps_, pe_ = chosen[0], chosen[1], chosen[2], chosen[3], chosen[4]
+                scrut_ = s.text[mk_:mo_]
+                arm_body_ = s.text[cur_s:cur_e]
+                inner = '%s{\n%s => %s,\n_ => { %s }\n}' % (scrut_, s.text[ps_:pe_], arm_body_, ' '.join(x.strip() for x in sections['keep-match']))
+                is_block = True
+                last = (True, '')
             post = last[1]
             if post.strip():
                 if not is_block:
